@@ -21,14 +21,14 @@ open CssVerif.StrCodec CssVerif.Proto
 
 /-- T3.1 (strings, lossless): for EVERY safe stored value, what `helper.string` writes is read back as that value. -/
 theorem string_roundtrip (v : List Nat) (h : SafeStr v) : strD (strE v) = some v :=
-  strD_strE_of_scan .quoted v h
+  strD_strE_of_scan .quoted rfl v h
 
 /-- T3.1 (strings, one token): for every safe stored value and every following text, the STRING production matches
 exactly the written text — the value does not end the string early and does not swallow what follows. -/
 theorem string_single_token (v rest : List Nat) (h : SafeStr v) :
     lexString (strE v ++ rest) = some (strE v).length := by
   have := lex_encTail .quoted rfl v rest h
-  simp only [strE, helperString_eq, lexString, List.cons_append, true_or, if_true, this]
+  simp only [strE, helperString_eq .quoted rfl v h, lexString, List.cons_append, true_or, if_true, this]
   simp
 
 /-- T3.1 (strings, fixpoint): writing what was read back from the written form gives the same text. -/
@@ -167,10 +167,15 @@ theorem fixed_url_control_char :
     uriE [1] = [0x75, 0x72, 0x6C, 0x28, 0x22, 1, 0x22, 0x29] ∧ SafeUri [1] ∧
     Gen.C03.uriRe.first (uriE [1]) = some 8 ∧ uriD (uriE [1]) = some [1] := by decide
 
-/-- `C03-uri-trailing-backslash`: `url(\,\\)` is stored as `\,\\`; the comma forces quotes and `"\,\\\"` never closes. -/
+/-- `C03-uri-trailing-backslash`: `url(\,\\)` is stored as `\,\\`; the comma forces quotes. Since 61e31a0 the written form
+`url("\,\\")` closes and is one URI token (before: `"\,\\\"` never closed), but it is read back as `\,\` — one backslash
+less: `stringvalue` takes the last backslash and the closing quote for an escaped quote. The text is a fixpoint, the
+stored value is not. -/
 theorem finding_uri_trailing_backslash :
     uriD [0x75, 0x72, 0x6C, 0x28, 0x5C, 0x2C, 0x5C, 0x5C, 0x29] = some [0x5C, 0x2C, 0x5C, 0x5C] ∧ ¬ SafeUri [0x5C, 0x2C, 0x5C, 0x5C] ∧
-    Gen.C03.uriRe.first (uriE [0x5C, 0x2C, 0x5C, 0x5C]) = none := by decide
+    Gen.C03.uriRe.first (uriE [0x5C, 0x2C, 0x5C, 0x5C]) = some (uriE [0x5C, 0x2C, 0x5C, 0x5C]).length ∧
+    uriD (uriE [0x5C, 0x2C, 0x5C, 0x5C]) = some [0x5C, 0x2C, 0x5C] ∧
+    uriE [0x5C, 0x2C, 0x5C] = uriE [0x5C, 0x2C, 0x5C, 0x5C] := by decide
 
 /-- `C03-ident-not-reescaped`: `\31 a` is stored and written as `1a`, which is no identifier. -/
 theorem finding_ident_not_reescaped :
